@@ -24,7 +24,7 @@ RULE = ("(a) totality: JSON syntax garbage plus shape mutation enumerated at EVE
         "config order with exactly the given arguments; (c) numbers: Util::parseSize / parseSizeOrPercent and the typed readers against "
         "exact rational arithmetic on a hand-built corpus (1.5G 32K, bare MB, N%, signs, trailing garbage, 1e30, nan, inf, 99999999999T, "
         "values around 2^31/2^32/2^53/2^63) and random strings: accepted => equals the exact value (fractional bytes may be floored or "
-        "rounded), overflow / non-finite => rejected. non-trivial = both an accepted and a rejected input seen; distinct by input")
+        "rounded), overflow / non-finite => rejected; a drop-in naming an unknown base ruleset in any position of its ruleset list is refused as a whole. non-trivial = both an accepted and a rejected input seen; distinct by input")
 ASSUMPTIONS = ["validity tables in oracles/config.py are the reading of docs/core_plugins.md; whitespace around a number, an explicit '+', "
                "negative sizes and exponent notation in sizes are don't-care",
                "an exception out of parse() is a legitimate reject on the drop-in path (the caller catches std::exception) but a crash at the CLI"]
